@@ -367,7 +367,7 @@ def parse_tlc(out):
     m = _INV.search(out) or _ACT.search(out)
     if m:
         res["violated"] = m.group(1)
-    elif "Temporal properties were violated" in out:
+    elif "Temporal properties were violated" in out or re.search(r"Temporal property \S+ was violated", out):
         res["violated"] = "temporal"
     elif "Error: Deadlock reached" in out:
         res["violated"] = "deadlock"
